@@ -67,6 +67,12 @@ func sharedAllOfRoots() (r1, r2 *jschema.Schema) {
 	return mk("r1"), mk("r2")
 }
 
+// the root of the goroutine mixes: type references, an or rule of rule sets, an or shortcut, enum, regex, a key shortcut
+const mixRootText = "{\n  \"a\": @T,\n  \"c\": @C, // {optional: true}\n  \"l\": [ // {optional: true}\n    @T\n  ],\n" +
+	"  \"o\": 1, // {optional: true, or: [{type: \"integer\"}, {type: \"string\", maxLength: 3}]}\n  \"u\": @T | @A, // {optional: true}\n" +
+	"  \"e\": \"x\", // {optional: true, enum: [\"x\", \"y\"]}\n  \"r\": \"ab\", // {optional: true, regex: \"^a\"}\n  @K: true // {optional: true}\n}"
+const mixKeyText = "\"kk\" // {regex: \"^k\"}"
+
 func init() {
 	register("c12sched", func(args []string) int {
 		fs := flag.NewFlagSet("c12sched", flag.ExitOnError)
@@ -183,7 +189,8 @@ func init() {
 		type world struct {
 			schemas []*jschema.Schema
 		}
-		docs := []string{`{"a": 1, "c": {"p": 1, "q": 2}}`, `{"a": -1}`, `{"a": 1}`, `[1]`, `{"a": 1, "c": {"p": 1}}`}
+		docs := []string{`{"a": 1, "c": {"p": 1, "q": 2}}`, `{"a": -1}`, `{"a": 1}`, `[1]`, `{"a": 1, "c": {"p": 1}}`,
+			`{"a": 1, "o": "abc", "u": {"p": 1}, "e": "y", "r": "ax", "kz": true}`, `{"a": 1, "o": "abcd"}`, `{"a": 1, "u": 7, "kz": 1}`}
 		build := func() []*jschema.Schema {
 			t := jschema.New("@T", "1 // {min: 0}")
 			a := jschema.New("@A", "{\n  \"p\": 1\n}")
@@ -195,10 +202,11 @@ func init() {
 				c = jschema.New("@C", "{\n  \"p\": 1,\n  \"q\": 2\n}")
 			}
 			mk := func(name string) *jschema.Schema {
-				s := jschema.New(name, "{\n  \"a\": @T,\n  \"c\": @C, // {optional: true}\n  \"l\": [ // {optional: true}\n    @T\n  ]\n}")
+				s := jschema.New(name, mixRootText)
 				_ = s.AddType("@T", t)
 				_ = s.AddType("@A", a)
 				_ = s.AddType("@C", c)
+				_ = s.AddType("@K", jschema.New("@K", mixKeyText))
 				return s
 			}
 			switch *scenario {
@@ -267,10 +275,11 @@ func init() {
 						t := jschema.New("@T", "1 // {min: 0}")
 						a := jschema.New("@A", "{\n  \"p\": 1\n}")
 						c := jschema.New("@C", "{\n  \"p\": 1,\n  \"q\": 2\n}")
-						s := jschema.New("s", "{\n  \"a\": @T,\n  \"c\": @C, // {optional: true}\n  \"l\": [ // {optional: true}\n    @T\n  ]\n}")
+						s := jschema.New("s", mixRootText)
 						_ = s.AddType("@T", t)
 						_ = s.AddType("@A", a)
 						_ = s.AddType("@C", c)
+						_ = s.AddType("@K", jschema.New("@K", mixKeyText))
 						mine = []*jschema.Schema{s}
 					}
 					for i := 0; i < 12; i++ {
